@@ -2195,3 +2195,192 @@ func E11DrawLoopState(c *core.Ctx, r *core.Report) {
 	r.Count("E11.draw-loops", n)
 	r.Floor("E11.draw-loops", 1)
 }
+
+// E11SpanShift: alignment moves the spans of a line together; it does not give them one position.
+func E11SpanShift(c *core.Ctx, r *core.Report) {
+	r.Rule("E11.span-shift", "text layout (NewTextLine, RichText.ToText): a loop over the spans of a line that writes the spans' X either shifts it (X -= c, X += c, X = X ± c) or assigns a value that depends on the span (its index, its own fields, or a running sum updated in the loop). Assigning one loop-invariant value to every span puts all spans of the line at the same place, so the spans of a centred or right-aligned line with more than one script run overlap")
+	p := c.MustPkg("")
+	info := p.TypesInfo
+	n := 0
+	for _, fname := range []string{"NewTextLine", "RichText.ToText"} {
+		fd := core.MustFuncDecl(p, fname)
+		r.Func("canvas." + fname)
+		ord := 0
+		ast.Inspect(fd.Body, func(m ast.Node) bool {
+			var body *ast.BlockStmt
+			var loopVars []types.Object
+			var loopPos token.Pos
+			switch x := m.(type) {
+			case *ast.RangeStmt:
+				body, loopPos = x.Body, x.Pos()
+				for _, e := range []ast.Expr{x.Key, x.Value} {
+					if id, ok := e.(*ast.Ident); ok && id.Name != "_" {
+						loopVars = append(loopVars, core.ObjOf(info, id))
+					}
+				}
+			case *ast.ForStmt:
+				body, loopPos = x.Body, x.Pos()
+				if as, ok := x.Init.(*ast.AssignStmt); ok {
+					for _, l := range as.Lhs {
+						if id, ok := l.(*ast.Ident); ok {
+							loopVars = append(loopVars, core.ObjOf(info, id))
+						}
+					}
+				}
+			default:
+				return true
+			}
+			// variables assigned anywhere in the loop body vary with the iteration
+			varying := map[types.Object]bool{}
+			for _, o := range loopVars {
+				varying[o] = true
+			}
+			ast.Inspect(body, func(k ast.Node) bool {
+				switch a := k.(type) {
+				case *ast.AssignStmt:
+					for _, l := range a.Lhs {
+						if id, ok := l.(*ast.Ident); ok {
+							varying[core.ObjOf(info, id)] = true
+						}
+					}
+				case *ast.IncDecStmt:
+					if id, ok := a.X.(*ast.Ident); ok {
+						varying[core.ObjOf(info, id)] = true
+					}
+				}
+				return true
+			})
+			for _, st := range body.List {
+				as, ok := st.(*ast.AssignStmt)
+				if !ok || len(as.Lhs) != 1 || len(as.Rhs) != 1 {
+					continue
+				}
+				sel, ok := as.Lhs[0].(*ast.SelectorExpr)
+				if !ok || sel.Sel.Name != "X" {
+					continue
+				}
+				// the X of a TextSpan element selected with a loop variable
+				if t := info.TypeOf(sel.X); t == nil || !isNamed(t, "tdewolff/canvas", "TextSpan") {
+					continue
+				}
+				ie, ok := core.Unparen(sel.X).(*ast.IndexExpr)
+				if !ok {
+					continue
+				}
+				byLoopVar := false
+				ast.Inspect(ie.Index, func(k ast.Node) bool {
+					if id, ok := k.(*ast.Ident); ok {
+						for _, o := range loopVars {
+							if core.ObjOf(info, id) == o {
+								byLoopVar = true
+							}
+						}
+					}
+					return true
+				})
+				if !byLoopVar {
+					continue
+				}
+				n++
+				ord++
+				key := fmt.Sprintf("canvas.%s|span position write #%d", fname, ord)
+				if as.Tok != token.ASSIGN {
+					r.OK("E11.span-shift", key, c.Pos(as.Pos()), "shift ("+as.Tok.String()+")")
+					continue
+				}
+				dep := false
+				ast.Inspect(as.Rhs[0], func(k ast.Node) bool {
+					if id, ok := k.(*ast.Ident); ok && varying[core.ObjOf(info, id)] {
+						dep = true
+					}
+					return true
+				})
+				if dep {
+					r.OK("E11.span-shift", key, c.Pos(as.Pos()), "depends on the span")
+				} else {
+					r.Fail("E11.span-shift", key, c.Pos(as.Pos()), fmt.Sprintf("every span of the line is given the same position `%s`: with more than one span (mixed scripts or directions) the spans overlap instead of following each other", types.ExprString(as.Rhs[0])))
+				}
+			}
+			_ = loopPos
+			return true
+		})
+	}
+	r.Count("E11.span-position-writes", n)
+	r.Floor("E11.span-position-writes", 2)
+}
+
+// E11CopyStore: a presentation attribute is not stored into a throw-away copy.
+func E11CopyStore(c *core.Ctx, r *core.Report) {
+	r.Rule("E11.copy-store", "in the SVG importer (svg.go) a field store `v.F = e` on a local `v` that is a value copy — bound by a type assertion to a non-pointer struct type, by a range value or by a plain assignment from a field/element — is followed by a use of v (typically storing it back); otherwise the attribute being processed has no effect. E.g. stroke-miterlimit must reach the context's joiner, not the copy the type assertion returned")
+	p := c.MustPkg("")
+	info := p.TypesInfo
+	n := 0
+	for _, fd := range core.AllFuncDecls(p) {
+		if fd.Body == nil || filepathBase(c.Fset.Position(fd.Pos()).Filename) != "svg.go" {
+			continue
+		}
+		fname := "canvas." + core.FuncName(fd)
+		ord := 0
+		// value copies: objects defined by `v, ok := x.(T)` with T a struct value type
+		copies := map[types.Object]bool{}
+		ast.Inspect(fd.Body, func(m ast.Node) bool {
+			as, ok := m.(*ast.AssignStmt)
+			if !ok || as.Tok != token.DEFINE || len(as.Rhs) != 1 {
+				return true
+			}
+			if ta, ok := core.Unparen(as.Rhs[0]).(*ast.TypeAssertExpr); ok && ta.Type != nil {
+				if t := info.TypeOf(ta.Type); t != nil {
+					if _, isStruct := t.Underlying().(*types.Struct); isStruct {
+						if id, ok := as.Lhs[0].(*ast.Ident); ok && id.Name != "_" {
+							copies[core.ObjOf(info, id)] = true
+						}
+					}
+				}
+			}
+			return true
+		})
+		if len(copies) == 0 {
+			continue
+		}
+		ast.Inspect(fd.Body, func(m ast.Node) bool {
+			as, ok := m.(*ast.AssignStmt)
+			if !ok || len(as.Lhs) != 1 {
+				return true
+			}
+			sel, ok := as.Lhs[0].(*ast.SelectorExpr)
+			if !ok {
+				return true
+			}
+			id, ok := core.Unparen(sel.X).(*ast.Ident)
+			if !ok || !copies[core.ObjOf(info, id)] {
+				return true
+			}
+			o := core.ObjOf(info, id)
+			n++
+			ord++
+			key := fmt.Sprintf("%s|store into a copied %s #%d", fname, types.TypeString(o.Type(), func(*types.Package) string { return "" }), ord)
+			used := false
+			ast.Inspect(fd.Body, func(k ast.Node) bool {
+				if uid, ok := k.(*ast.Ident); ok && uid.Pos() > as.End() && core.ObjOf(info, uid) == o {
+					used = true
+				}
+				return true
+			})
+			if used {
+				r.OK("E11.copy-store", key, c.Pos(as.Pos()), "the copy is used afterwards")
+			} else {
+				r.Fail("E11.copy-store", key, c.Pos(as.Pos()), fmt.Sprintf("`%s` writes a field of the copy that the type assertion produced and the copy is never used again: the value never reaches the drawing state, the attribute is ignored", c.Src(as)))
+			}
+			return true
+		})
+	}
+	r.Count("E11.copy-stores", n)
+	r.Floor("E11.copy-stores", 1)
+}
+
+func filepathBase(s string) string {
+	if i := strings.LastIndex(s, "/"); i >= 0 {
+		return s[i+1:]
+	}
+	return s
+}
